@@ -26,26 +26,43 @@ abbrev Faithful (store : StoreFn φ) : Nat → φ → Prop := fun l f => f = eag
 
 /-! ### bus_inv -/
 
-/-- For EVERY access history (any keys: single label, list, slice, Boolean, iloc; items()/values;
-    non-loading observers) on a Bus opened on a store, by induction over the op list: the LRU list has no
-    duplicates; when max_persist is set the loaded labels are exactly the members of the LRU list, the number
-    of loaded frames is at most max_persist and equals the length of the LRU list; the loaded flags agree
-    with the cells of the Series; without max_persist there is no LRU list. -/
-theorem bus_inv (store : StoreFn φ) (pinnedReader : Bool) (st : StoreSt) (labels : List Nat) (mp : Option Nat)
-    (hn : labels.Nodup) (s0 s : BusSt φ) (ops : List BusOp)
-    (h0 : BusSt.fromStore labels mp = .ok s0) (h : BusSt.run store pinnedReader st s0 ops = .ok s) :
+/-- For EVERY history on a Bus opened on a store — accesses with any key (single label, list, slice, Boolean,
+    iloc), items()/values, non-loading observers, INCLUDING operations that fail (a store read raising
+    StoreFileMutation or any other error, an invalid key) after which the history goes on with the object as it
+    was left, interleaved with arbitrary file events (touch, rewrite, delete) and writes through the store — by
+    induction over the event list: the LRU list has no duplicates; when max_persist is set the loaded labels are
+    exactly the members of the LRU list, the number of loaded frames is at most max_persist and equals the
+    length of the LRU list; the loaded flags agree with the cells; labels and max_persist never change; without
+    max_persist there is no LRU list. -/
+theorem bus_inv (store : StoreFn φ) (pinnedReader : Bool) (st0 : StoreSt) (labels : List Nat) (mp : Option Nat)
+    (hn : labels.Nodup) (s0 : BusSt φ) (evs : List HistEv)
+    (h0 : BusSt.fromStore labels mp = .ok s0) :
+    let s := (BusSt.runAll store pinnedReader st0 s0 evs).2
     s.lru.Nodup ∧ s.loaded = s.cache.map Option.isSome ∧ s.loadedAll = s.loaded.all id ∧
+    s.labels = labels ∧ s.maxPersist = mp ∧
     (mp = none → s.lru = []) ∧
     (∀ k, mp = some k →
       (∀ (i l : Nat), s.labels[i]? = some l → (s.loaded[i]? = some true ↔ l ∈ s.lru)) ∧
       s.loaded.count true ≤ k ∧ s.lru.length = s.loaded.count true) := by
-  obtain ⟨hi0, _, hmp0, _⟩ := fromStore_inv (P := Any) hn h0
-  obtain ⟨hi, _, hmp⟩ := run_inv (P := Any) (fun _ => trivial) ops s0 s hi0 (fun _ => trivial) h
+  intro s
+  obtain ⟨hi0, hl0, hmp0, _⟩ := fromStore_inv (P := Any) hn h0
+  obtain ⟨hi, hl, hmp⟩ := runAll_inv (P := Any) (store := store) (pinnedReader := pinnedReader)
+    (fun _ => trivial) evs st0 s0 hi0 (fun _ => trivial)
   have hm : s.maxPersist = mp := by rw [hmp, hmp0]
-  refine ⟨hi.lruNodup, hi.flags, hi.allFlag, fun h => hi.lruNone (by rw [hm, h]), ?_⟩
+  refine ⟨hi.lruNodup, hi.flags, hi.allFlag, by rw [hl, hl0], hm, fun h => hi.lruNone (by rw [hm, h]), ?_⟩
   intro k hk
   have hS : s.maxPersist.isSome = true := by rw [hm, hk]; rfl
   exact ⟨hi.lruMem hS, hi.bound k (by rw [hm, hk]), hi.lruLen hS⟩
+
+/-- the history that broke the bound on the pinned tree (failed read, file restored, three more accesses):
+    the failed access leaves no trace, two frames are held with max_persist = 2 -/
+example : (BusSt.runAll (fun _ l => l) false (StoreSt.init (some 1))
+    ({ labels := [0, 1, 2, 3], cache := [none, none, none, none], loaded := [false, false, false, false],
+       loadedAll := false, lru := [], maxPersist := some 2 } : BusSt Nat)
+    [.file (.touch 2), .op (.access (.int 0)), .file (.touch 1), .op (.access (.int 1)), .op (.access (.int 2)),
+     .op (.access (.int 3))]).2
+    = { labels := [0, 1, 2, 3], cache := [none, none, some 2, some 3], loaded := [false, false, true, true],
+        loadedAll := false, lru := [2, 3], maxPersist := some 2 } := by decide
 
 example : BusSt.run (fun _ l => l) true (StoreSt.init (some 1))
     ({ labels := [0, 1, 2], cache := [none, none, none], loaded := [false, false, false], loadedAll := false,
@@ -54,14 +71,20 @@ example : BusSt.run (fun _ l => l) true (StoreSt.init (some 1))
     = .ok { labels := [0, 1, 2], cache := [some 0, none, some 2], loaded := [true, false, true],
             loadedAll := false, lru := [2, 0], maxPersist := some 2 } := by decide
 
-/-- The same invariant for every Bus that can come into existence: after any successful operation whatever
-    happened to the file in between, for the Bus returned by a multi-label selection and for every derived
+/-- The same invariant for every Bus that can come into existence: after any successful or FAILED operation
+    whatever happened to the file in between, for the Bus returned by a multi-label selection and for every derived
     Bus (`drop`, `reindex`, `sort_index`, `head`, `tail`: `_derive` of a duplicate-free selection). -/
 theorem bus_inv_reach (store : StoreFn φ) (pinnedReader : Bool) (s : BusSt φ) (h : Reach store pinnedReader s) :
     Inv (Any (φ := φ)) s := by
   induction h with
   | root labels mp s hn h0 => exact (fromStore_inv hn h0).1
   | step st s s' op _ hstep ih => exact (step_inv ih (fun _ => trivial) (fun _ => trivial) hstep).1
+  | failed st s s' op e _ hstep ih =>
+    have h := stepState_inv (store := store) (pinnedReader := pinnedReader) (st := st) (op := op) ih
+      (fun _ => trivial) (fun _ => trivial)
+    unfold BusSt.stepState at h
+    rw [hstep] at h
+    exact h.1
   | selected st s s' d k _ hext ih =>
     exact ((extractIloc_inv ih (fun _ => trivial) (fun _ => trivial) hext).2.2.2 d rfl).1
   | derived s d ps _ hnd hps hd ih =>
@@ -135,15 +158,18 @@ theorem reader_reads_eager (store : StoreFn φ) (mp : Option Nat) (l : Nat) :
     store (readerCfgKey false mp l) l = eager store l := rfl
 
 /-- Labels and their order never change, and every label loaded in the post-state maps to exactly the
-    store's frame for that label (what an eager load returns) — for every access history and every
-    max_persist, for `_store_reader` as it is in the code (`config[label]`). -/
-theorem bus_faithful (store : StoreFn φ) (st : StoreSt) (labels : List Nat) (mp : Option Nat)
-    (hn : labels.Nodup) (s0 s : BusSt φ) (ops : List BusOp)
-    (h0 : BusSt.fromStore labels mp = .ok s0) (h : BusSt.run store false st s0 ops = .ok s) :
+    store's frame for that label (what an eager load returns) — for every full history (failed operations and
+    file events included) and every max_persist, for `_store_reader` as it is in the code (`config[label]`). -/
+theorem bus_faithful (store : StoreFn φ) (st0 : StoreSt) (labels : List Nat) (mp : Option Nat)
+    (hn : labels.Nodup) (s0 : BusSt φ) (evs : List HistEv)
+    (h0 : BusSt.fromStore labels mp = .ok s0) :
+    let s := (BusSt.runAll store false st0 s0 evs).2
     s.labels = labels ∧ s.maxPersist = mp ∧
     ∀ (i l : Nat) (f : φ), s.labels[i]? = some l → s.cache[i]? = some (some f) → f = store (some l) l := by
+  intro s
   obtain ⟨hi0, hl0, hmp0, _⟩ := fromStore_inv (P := Faithful store) hn h0
-  obtain ⟨hi, hl, hmp⟩ := run_inv (P := Faithful store) (fun _ => rfl) ops s0 s hi0 (fun _ => rfl) h
+  obtain ⟨hi, hl, hmp⟩ := runAll_inv (P := Faithful store) (store := store) (pinnedReader := false)
+    (fun _ => rfl) evs st0 s0 hi0 (fun _ => rfl)
   exact ⟨by rw [hl, hl0], by rw [hmp, hmp0], hi.content⟩
 
 example : ∃ s : BusSt (Nat × Bool), BusSt.run (fun ck l => (l, ck == some l)) false (StoreSt.init (some 1))
@@ -263,7 +289,7 @@ theorem bus_no_internal_error (store : StoreFn φ) (pinnedReader : Bool) (st : S
     (h : s.extractIloc store pinnedReader st key = .error (e, s')) :
     s' = s ∧ (key.positions s.labels.length = .error e ∨ e = .nonUnique) := by
   rcases extractIloc_spec (st := st) (k := key) hinv (fun _ => trivial) (fun _ => trivial) with
-    ⟨s1, r1, ps1, h1, _⟩ | ⟨e1, s1, h1, h2⟩
+    ⟨s1, r1, ps1, h1, _⟩ | ⟨e1, s1, h1, _, _, _, _, _, h2⟩
   · rw [h1] at h; cases h
   · rw [h1] at h
     simp only [Except.error.injEq, Prod.mk.injEq] at h
@@ -295,10 +321,13 @@ theorem bus_labels_fixed (store : StoreFn φ) (pinnedReader : Bool) (st : StoreS
 
 /-! ### counterexamples found by mirroring the code (replayed on the real code, see findings/C17.json) -/
 
-/-- The bound does NOT survive a failed store read: the LRU entry is written before the read, so after a
-    StoreFileMutation the label stays in `_last_accessed` without being loaded; once the file is coherent
-    again that phantom is evicted instead of a real frame and three frames are held with max_persist = 2. -/
-theorem bus_bound_after_failed_read_counterexample :
+/-- HISTORICAL (pinned-tree behaviour, repaired in /repo f8d3a4f).  With the LRU touch BEFORE the store read
+    (`loopBodyPinned` / `updateCachePinned`) the bound did NOT survive a failed read: after a
+    StoreFileMutation the label stayed in `_last_accessed` without being loaded (`s1`, which violates the
+    invariant); once the file was coherent again that phantom was evicted instead of a real frame and three
+    frames were held with max_persist = 2.  The current `updateCache` leaves the Bus untouched in the same
+    situation (last conjunct; in general: `bus_inv`). -/
+theorem bus_bound_after_failed_read_pinned_counterexample :
     let s0 : BusSt Nat := { labels := [0, 1, 2, 3], cache := [none, none, none, none],
                             loaded := [false, false, false, false], loadedAll := false, lru := [], maxPersist := some 2 }
     let s1 : BusSt Nat := { s0 with lru := [0] }
@@ -306,10 +335,11 @@ theorem bus_bound_after_failed_read_counterexample :
                             loaded := [false, true, true, true], loadedAll := false, lru := [1, 2, 3], maxPersist := some 2 }
     let stale := (StoreSt.init (some 1)).event (.touch 2)
     let restored := stale.event (.touch 1)
-    s0.extractIloc (fun _ l => l) true stale (.int 0) = .error (.storeMutation, s1) ∧
-    BusSt.run (fun _ l => l) true restored s1 [.access (.int 1), .access (.int 2), .access (.int 3)] = .ok s2 ∧
-    s2.loaded.count true = 3 ∧ s2.maxPersist = some 2 := by
-  exact ⟨by decide, by decide, by decide, by decide⟩
+    s0.updateCachePinned (fun _ l => l) false stale [0] true = .error (.storeMutation, s1) ∧
+    BusSt.run (fun _ l => l) false restored s1 [.access (.int 1), .access (.int 2), .access (.int 3)] = .ok s2 ∧
+    s2.loaded.count true = 3 ∧ s2.maxPersist = some 2 ∧
+    s0.updateCache (fun _ l => l) false stale [0] true = .error (.storeMutation, s0) := by
+  exact ⟨by decide, by decide, by decide, by decide, by decide⟩
 
 /-- `sort_values` loads every frame and then derives a fully loaded Bus with the same max_persist:
     `__init__` refuses it whenever max_persist < len(bus). -/
@@ -397,8 +427,9 @@ theorem bus_stale_raises (store : StoreFn φ) (pinnedReader : Bool) (st0 : Store
     cases key with
     | int i => obtain ⟨p, hp, _⟩ := SF.C04.int_position hpos; rw [hp]; simp
     | _ => simp [Key.isMulti] at h
-  obtain ⟨s', hupd, h1, h2, h3, _⟩ :=
-    updateCache_stale (store := store) (pinnedReader := pinnedReader) (isElement := !key.isMulti) hinv hst' hps hel hneed
+  obtain ⟨s', hupd, _, h1, h2, h3, _⟩ :=
+    updateCache_fail (store := store) (pinnedReader := pinnedReader) (isElement := !key.isMulti) hinv
+      (fun f => StoreSt.read_stale (st0.events evs) f hst') hps hel hneed
   refine ⟨s', ?_, h1, h2, h3⟩
   unfold BusSt.extractIloc
   rw [hpos]
@@ -409,12 +440,11 @@ theorem bus_stale_raises (store : StoreFn φ) (pinnedReader : Bool) (st0 : Store
     | true => simp [hnd hm]
   rw [if_neg hdup, hupd]
 
-example : ∃ s' : BusSt Nat,
-    BusSt.extractIloc (fun _ l => l) true ((StoreSt.init (some 1)).events [.delete])
-      { labels := [0, 1], cache := [some 0, none], loaded := [true, false], loadedAll := false, lru := [0],
-        maxPersist := some 2 } (.list [0, 1]) = .error (.storeMutation, s') ∧ s'.lru = [0, 1] :=
-  ⟨{ labels := [0, 1], cache := [some 0, none], loaded := [true, false], loadedAll := false, lru := [0, 1],
-     maxPersist := some 2 }, by decide, rfl⟩
+example : BusSt.extractIloc (fun _ l => l) false ((StoreSt.init (some 1)).events [.delete])
+    ({ labels := [0, 1, 2], cache := [some 0, none, some 2], loaded := [true, false, true], loadedAll := false,
+       lru := [0, 2], maxPersist := some 2 } : BusSt Nat) (.list [0, 1, 2])
+    = .error (.storeMutation, { labels := [0, 1, 2], cache := [some 0, none, some 2], loaded := [true, false, true],
+                                loadedAll := false, lru := [2, 0], maxPersist := some 2 }) := by decide
 
 /-- after `write` (decorator `store_coherent_write`) the recorded mtime is the file's, whatever it was
     before, and the next read returns data -/
